@@ -484,7 +484,7 @@ class Fn(object):
                     work.append((s, 0))
         return None
 
-    def exit_reachable_avoiding(self, src, avoid_pred, exit_pred=None, origin=None):
+    def exit_reachable_avoiding(self, src, avoid_pred, exit_pred=None, origin=None, skip_edge=None):
         """Is there a path from just after src to function exit (a return elem satisfying exit_pred, or the
         exit block) that avoids every element satisfying avoid_pred? Returns witness (ret elem or True) or None."""
         bid, idx = src
@@ -515,6 +515,8 @@ class Fn(object):
                     if exit_pred is None:
                         return True
                 if origin is not None and self.contra(origin, s):
+                    continue
+                if skip_edge is not None and skip_edge(blk, s, _):
                     continue
                 if s not in seen:
                     seen.add(s)
@@ -651,6 +653,32 @@ class Fn(object):
                         if self.depends_on(rhs, names, d, depth + 1):
                             return True
         return False
+
+    def segment_blocks(self, a, b):
+        """blocks on paths a -> b that do not pass through a again (a excluded, b included)."""
+        fwd = set()
+        st = [s for s, _ in self.blocks[a].succ if s != a]
+        while st:
+            x = st.pop()
+            if x in fwd or x == a:
+                continue
+            fwd.add(x)
+            if x == b:
+                continue
+            for s, _ in self.blocks[x].succ:
+                if s not in fwd and s != a:
+                    st.append(s)
+        bwd = set()
+        st = [b]
+        while st:
+            x = st.pop()
+            if x in bwd or x == a:
+                continue
+            bwd.add(x)
+            for p, _ in self.blocks[x].preds:
+                if p not in bwd and p != a:
+                    st.append(p)
+        return fwd & bwd
 
     def between_blocks(self, a_succ, bid):
         """Blocks on some path from block a_succ to block bid (inclusive)."""
